@@ -54,6 +54,9 @@ type sched struct {
 	// *Stage field set to the loop's stage), that parameter of the body and the index of the field
 	carrier      *ssa.Parameter
 	carrierField int
+	// a hand-made replacement of the WaitGroup (latch.go), resolved on demand
+	latch       *chanLatch
+	latchLooked bool
 	runnerCalls  []ssa.CallInstruction // calls in body that synchronously reach Runner.Run
 	runStage     *ssa.Function         // function invoking Runner.Run
 	gate         *ssa.Function
@@ -665,4 +668,14 @@ func (s *sched) isBodyStage(v ssa.Value, st *an.State) bool {
 		}
 	}
 	return false
+}
+
+// chanLatchOf returns the channel latch around the launch, if the scheduler
+// uses one instead of a WaitGroup.
+func (s *sched) chanLatchOf() *chanLatch {
+	if !s.latchLooked {
+		s.latchLooked = true
+		s.latch = resolveChanLatch(s)
+	}
+	return s.latch
 }
